@@ -549,9 +549,10 @@ theorem specDecodeBlocks_consumed_ge (window : Nat) (dict : Array Nat) (fuel : N
 
 /-- `decode_blocks` with ANY strategy, called while the last block is not in, keeps the frame invariant
 and never fails -/
-theorem FrameInv.blocks {out' : Array Nat} {sEnd : Src} {cons : Nat} {cks : Option Nat} {d : Decoder σ} {s : Src}
+theorem FrameInv.blocks' {out' : Array Nat} {sEnd : Src} {cons : Nat} {cks : Option Nat} {d : Decoder σ} {s : Src}
     (h : FrameInv out' sEnd cons cks d s) (hnd : d.blocksDone = false) (strat : Strategy) :
-    ∃ d1 s1 fin, d.decodeBlocks s strat = (d1, .ok (s1, fin)) ∧ FrameInv out' sEnd cons cks d1 s1 := by
+    ∃ d1 s1 fin, d.decodeBlocks s strat = (d1, .ok (s1, fin)) ∧ FrameInv out' sEnd cons cks d1 s1 ∧
+      (s1.length < s.length ∨ d1.isFinished = true) ∧ d1.dicts = d.dicts ∧ d1.maxWindow = d.maxWindow := by
   obtain ⟨st, hst, hcase⟩ := h
   rcases hcase with ⟨hnf, hcs, hb, e, out, fuelS, consumed, n, hf, hsp, hn, hc1, hc2⟩ | ⟨hfin, -⟩
   · rw [Decoder.decodeBlocks_some d st s strat hst]
@@ -562,8 +563,9 @@ theorem FrameInv.blocks {out' : Array Nat} {sEnd : Src} {cons : Nat} {cks : Opti
       have hge := specDecodeBlocks_consumed_ge _ _ _ _ _ _ _ _ _ hs1
       have hmn : m ≤ n := by omega
       rw [hrun]
-      refine ⟨_, _, _, rfl, st1, rfl, Or.inl ⟨by rw [hfs.finished, hnf], by rw [hfs.checksum, hcs],
-        fun x hx => hb x (List.mem_of_mem_drop hx), e1, out1, fS1, consumed + m, n - m, hf1, ?_, ?_, ?_, ?_⟩⟩
+      refine ⟨_, _, _, rfl, ⟨st1, rfl, Or.inl ⟨by rw [hfs.finished, hnf], by rw [hfs.checksum, hcs],
+        fun x hx => hb x (List.mem_of_mem_drop hx), e1, out1, fS1, consumed + m, n - m, hf1, ?_, ?_, ?_, ?_⟩⟩,
+        Or.inl (by rw [List.length_drop]; omega), rfl, rfl⟩
       · rw [hfs.window, hfs.dict, show consumed + m + (n - m) = consumed + n by omega]; exact hs1
       · rw [List.length_drop]; omega
       · intro hflag
@@ -586,18 +588,26 @@ theorem FrameInv.blocks {out' : Array Nat} {sEnd : Src} {cons : Nat} {cks : Opti
       by_cases hflag : st.header.checksumFlag = true
       · obtain ⟨cb, hre, hck, hbr⟩ := hc1 hflag
         rw [hfs.header, if_pos hflag, hre]
-        refine ⟨_, _, _, rfl, _, rfl, Or.inr ⟨rfl, hstr, rfl, ?_, ?_, ?_⟩⟩
+        refine ⟨_, _, _, rfl, ⟨_, rfl, Or.inr ⟨rfl, hstr, rfl, ?_, ?_, ?_⟩⟩, Or.inr ?_, rfl, rfl⟩
         · simp only; rw [hfs.bytesRead]; omega
         · simp only; rw [hck]
+        · simp [Decoder.isFinished, hfs.header, hflag]
         · simp [Decoder.isFinished, hfs.header, hflag]
       · have hflag' : st.header.checksumFlag = false := by simpa using hflag
         obtain ⟨hse, hck, hbr⟩ := hc2 hflag'
         rw [hfs.header, if_neg hflag]
-        refine ⟨_, _, _, rfl, _, rfl, Or.inr ⟨rfl, hstr, hse, ?_, ?_, ?_⟩⟩
+        refine ⟨_, _, _, rfl, ⟨_, rfl, Or.inr ⟨rfl, hstr, hse, ?_, ?_, ?_⟩⟩, Or.inr ?_, rfl, rfl⟩
         · simp only; rw [hfs.bytesRead]; omega
         · simp only; rw [hfs.checksum, hcs, hck]
         · simp [Decoder.isFinished, hfs.header, hflag']
+        · simp [Decoder.isFinished, hfs.header, hflag']
   · simp [Decoder.blocksDone, hst, hfin] at hnd
+
+theorem FrameInv.blocks {out' : Array Nat} {sEnd : Src} {cons : Nat} {cks : Option Nat} {d : Decoder σ} {s : Src}
+    (h : FrameInv out' sEnd cons cks d s) (hnd : d.blocksDone = false) (strat : Strategy) :
+    ∃ d1 s1 fin, d.decodeBlocks s strat = (d1, .ok (s1, fin)) ∧ FrameInv out' sEnd cons cks d1 s1 := by
+  obtain ⟨d1, s1, fin, h1, h2, -⟩ := h.blocks' hnd strat
+  exact ⟨d1, s1, fin, h1, h2⟩
 
 
 /-- documented use: `decode_blocks` is only called while the frame's last block is not in -/
@@ -781,32 +791,5 @@ theorem decodeFrame_checksum (f : List Nat) (dicts : List Spec.Dict) (r : Spec.F
           · simp [hn] at hs
           · exact hs' _ hs (by simp [hn])
 
-
-/-! ### the full driver grammar (for the statement `schedule_independent_full` only) -/
-
-inductive FOp where
-  | sop (o : SOp)
-  | sread (n : Nat)
-  | fromTo (chunk n : Nat)     -- `decode_from_to(&src[..chunk], target[..n])`, the caller then advances by the reported count
-
-/-- run a program over the full driver grammar, threading the source; result: decoder, source left,
-delivered bytes, first error -/
-def runFull (d : Decoder σ) (s : Src) : List FOp → Decoder σ × Src × Array Nat × Option DErr
-  | [] => (d, s, #[], none)
-  | .sop o :: ops =>
-    let r1 := runSched d s [o]
-    match r1.2.2.2 with
-    | some e => (r1.1, r1.2.1, r1.2.2.1, some e)
-    | none => let r := runFull r1.1 r1.2.1 ops; (r.1, r.2.1, r1.2.2.1 ++ r.2.2.1, r.2.2.2)
-  | .sread n :: ops =>
-    match streamingRead d s n with
-    | (d1, .ok (s1, out)) => let r := runFull d1 s1 ops; (r.1, r.2.1, out ++ r.2.2.1, r.2.2.2)
-    | (d1, .err e) => (d1, s, #[], some e)
-    | (d1, .fault _) => (d1, s, #[], none)
-  | .fromTo chunk n :: ops =>
-    match d.decodeFromTo (s.take chunk) n with
-    | (d1, .ok (rd, out)) => let r := runFull d1 (s.drop rd) ops; (r.1, r.2.1, out ++ r.2.2.1, r.2.2.2)
-    | (d1, .err e) => (d1, s, #[], some e)
-    | (d1, .fault _) => (d1, s, #[], none)
 
 end Zstd.Model
